@@ -556,9 +556,11 @@ func (pck *pebbleEngCheckpoint) Save(path string, notify chan struct{}) error {
 		return errDBEngClosed
 	}
 	if notify != nil {
-		time.AfterFunc(time.Millisecond*20, func() {
-			close(notify)
-		})
+		// pebble copies the live WAL files as the last step of Checkpoint, whole files and not
+		// only the part written when the checkpoint began. Any write done before Checkpoint
+		// returns can therefore end up in the checkpoint, so the waiter (the raft apply loop)
+		// can only be released after the checkpoint is complete.
+		defer close(notify)
 	}
 	return pck.pe.eng.Checkpoint(path)
 }
